@@ -34,13 +34,15 @@ def handleC03 (toks : List String) : String :=
         if !validEntries es then err "value" else
         let cs := candsOf G es
         let c2 := cutoff * cutoff
-        let rowsL := runL S c2 cs
-        let st := runA junkC03 init delta S c2 cs
+        let tbl := distTable S
+        let acc := tableAccept tbl c2
+        let rowsL := runLW acc n cs
+        let st := runAW junkC03 init delta acc n cs
         if absRows st.rows ≠ rowsL then err "assert" else
         if st.rows.any (fun r => r.length ≠ st.maxn + 1) then err "assert" else
         let coordOk := st.rows.all fun r => coordOf r == (absRow r).length
         if !coordOk then err "assert" else
-        s!"ok {st.maxn} {showBool (nearCutoff S cutoff tol)} {showBool (nearEdge S G tol)} {cs.length} {es.length} "
+        s!"ok {st.maxn} {showBool (nearCutoff tbl cutoff tol)} {showBool (nearEdge S G tol)} {cs.length} {es.length} "
           ++ showRowsC03 (absRows st.rows)
       | _, _, _ => err "format"
     | _, _, _, _, _, _, _ => err "format"
